@@ -387,8 +387,16 @@ func execute(sc scenario, d *shapeDesc) observation {
 		}
 	}
 	target := reflect.New(d.typ)
-	err := config.LoadFromEnvironment(session, sc.Prefix, target.Interface().(config.IServiceConfiguration),
-		defaults.Interface().(config.IServiceConfiguration), file)
+	tgt, dfl := target.Interface().(config.IServiceConfiguration), defaults.Interface().(config.IServiceConfiguration)
+	var err error
+	switch {
+	case file != "":
+		err = config.LoadFromEnvironment(session, sc.Prefix, tgt, dfl, file)
+	case anyFlag(sc):
+		err = config.LoadFromViper(session, sc.Prefix, tgt, dfl) // the same without a configuration file
+	default:
+		err = config.Load(sc.Prefix, tgt, dfl) // … and with a fresh viper session
+	}
 	o.ValOK = true
 	for _, l := range d.leaves {
 		v, ok := getLeaf(target, l)
@@ -419,6 +427,15 @@ func execute(sc scenario, d *shapeDesc) observation {
 	}
 	sort.Strings(o.Names)
 	return o
+}
+
+func anyFlag(sc scenario) bool {
+	for _, l := range sc.Leaves {
+		if l.Flag != nil {
+			return true
+		}
+	}
+	return false
 }
 
 // ---------- the oracle: the property stated on the observations ----------
@@ -883,8 +900,12 @@ func leafWith(r *h.Run, ty string, pattern int, zeroP int) leafSrc {
 	}
 	if pattern&4 != 0 {
 		ls.Env = fresh("env")
-		if ty == "str" && ls.Env.S == "" {
+		if ty == "str" && ls.Env.S == "" && r.Rng.Intn(3) != 0 {
+			// mostly avoid the empty variable; when kept it must count as NOT set (setEnvOptions: AllowEmptyEnv(false))
 			ls.Env.S = "env-nonempty"
+		}
+		if ty == "str" && r.Rng.Intn(25) == 0 {
+			ls.Env.S = ""
 		}
 	}
 	if pattern&8 != 0 {
@@ -997,6 +1018,16 @@ func deterministic(r *h.Run) []scenario {
 				if ls.Flag != nil {
 					ls.Flag.Style = (i + j) % 10
 				}
+				sc.Leaves = append(sc.Leaves, ls)
+			}
+			out = append(out, sc)
+		}
+		// environment and defaults only (no file, no flag): goes through config.Load and a fresh session
+		for j := 0; j < 2; j++ {
+			sc := scenario{Shape: sh.name, Prefix: prefixes[(si+3*j)%len(prefixes)], Note: "env-and-defaults-only"}
+			for i, l := range d.leaves {
+				ls := leafWith(r, l.Ty, []int{4, 5, 1, 0, 5}[(i+j)%5], 0)
+				ls.Flag = nil
 				sc.Leaves = append(sc.Leaves, ls)
 			}
 			out = append(out, sc)
@@ -1138,7 +1169,7 @@ func main() {
 	for _, s := range deterministic(r) {
 		runOne(r, s)
 	}
-	n := r.N(450, 6000)
+	n := r.N(450, 3000)
 	for i := 0; i < n; i++ {
 		runOne(r, genRandom(r))
 	}
